@@ -51,6 +51,9 @@ Fragment 𝔽₂ (function bodies with statements, `Model/CSem2.lean`, `Model/Lo
            | (while EXPR STMT) | (do STMT EXPR)
            | (for STMT COND STMT STMT)            init, condition, step, body; COND ::= EXPR | (none)
            | (break) | (continue)
+           | (switch EXPR STMT)                   EXPR already promoted (`exprpromote`); STMT is the body,
+                                                  normally a (block …) whose elements include the labels
+           | (case U) | (default)                 labels; U = `intconstexpr`'s value as unsigned decimal
     In EXPR, (p TY K) names VARIABLE K: parameters 0 … n-1, then the locals in declaration order.
 `eval` on such a line runs `CSem2.runC` with the fuel given by `--cfuel N` (default 100000; `c=ub` also
 when that fuel is exhausted) and the IL of `Lower2.emitFunc`; `wt=0` is also printed when a statement
@@ -164,6 +167,9 @@ def parseStmtF : Nat → SExp → Except String Stmt
         | .list [.atom "none"] => pure none
         | c => do pure (some (← parseExprF n c))
       pure (.seq (← parseStmtF n i) (.for_ c' (← parseStmtF n st) (← parseStmtF n b)))
+    | .list [.atom "switch", c, b] => do pure (.switch_ (← parseExprF n c) (← parseStmtF n b))
+    | .list [.atom "case", u] => do pure (.case_ (← parseNat u))
+    | .list [.atom "default"] => pure .default_
     | .list [.atom "break"] => pure .break_
     | .list [.atom "continue"] => pure .continue_
     | _ => .error "statement"
